@@ -536,7 +536,9 @@ class SFMap(ModelObj):
 
     def values_seq(self):
         m = self.v
-        return SSeq(m.n, lambda i: m.val(m.key(i)), m.vshape, None, "values")
+        r = SSeq(m.n, lambda i: m.val(m.key(i)), m.vshape, None, "values")
+        r.map_src = m  # provenance, as for keys() / items()
+        return r
 
     def py_call(self, ip, st, name, args, kwargs):
         m = self.v
